@@ -352,6 +352,32 @@ def special(rec, fid, args, n, m_):
         v = int.from_bytes(bs, "big" if be else "little", signed=is_signed(T))
         lo, hi = rng_of(T, n)
         return ("some", (enc(T, v, n),)) if lo <= v <= hi else ("none", ())
+    mm = re.match(r"^(?:" + ADT_RE + r"<N>::from_str_radix|<" + ADT_RE + r"<N> as core::str::FromStr>::from_str)$", fid)
+    if mm:
+        T = mm.group(1) or mm.group(2)
+        r = args[1] if len(args) > 1 else 10
+        txt = bytes(args[0])
+        sgT = is_signed(T)
+        if not txt:
+            return ("err", ())
+        body, neg = txt, False
+        if txt[:1] == b"+":
+            body = txt[1:]
+        elif txt[:1] == b"-" and sgT:
+            body, neg = txt[1:], True
+        if not body:
+            return ("err", ())
+        v = 0
+        for ch in body:
+            c_ = chr(ch)
+            d = ord(c_) - 48 if "0" <= c_ <= "9" else (ord(c_) - 87 if "a" <= c_ <= "z" else (ord(c_) - 55 if "A" <= c_ <= "Z" else 99))
+            if d >= r:
+                return ("err", ())
+            v = v * r + d
+        if neg:
+            v = -v
+        lo, hi = rng_of(T, n)
+        return ("ok", (enc(T, v, n),)) if lo <= v <= hi else ("err", ())
     mm = re.match(r"^" + ADT_RE + r"<N>::from_radix_(be|le)$", fid)
     if mm:
         T, be = mm.group(1), mm.group(2) == "be"
@@ -491,6 +517,20 @@ def main():
                                         top = (L - nbts) if be_ else nbts - 1
                                         bs[top] = (bs[top] | 0x80) if neg else (bs[top] & 0x7F)
                         vals.append(["bytes", bs, cn[1]])
+                    elif k == "text":
+                        L = cn[2]
+                        radix = next((c2[1] for c2 in contents if c2[0] == "c" and c2[2] == "u32"), 10)
+                        digs = "0123456789abcdefghijklmnopqrstuvwxyz"[:radix]
+                        mode = rnd.random()
+                        if mode < 0.5:
+                            rest = [ord("0")] * (L - 1)          # zero padded: the value fits
+                            for _ in range(rnd.randrange(0, 3)):
+                                rest[rnd.randrange(max(0, L - 4), L - 1) if L > 1 else 0] = ord(rnd.choice(digs)) if L > 1 else 0
+                        elif mode < 0.85:
+                            rest = [ord(rnd.choice(digs)) for _ in range(L - 1)]
+                        else:
+                            rest = [rnd.choice([ord("0"), ord("z"), ord(" "), ord(rnd.choice(digs)), 0xFF]) for _ in range(L - 1)]
+                        vals.append(["bytes", [cn[3]] + rest, cn[1]])
                     elif k == "digs":
                         T = {"u64": "BUint", "u32": "BUintD32", "u16": "BUintD16", "u8": "BUintD8"}[cn[3] if len(cn) > 3 else DIGIT[A]]
                         vals.append(["bn", T, cn[2], rand_val(T, cn[2], rnd), cn[1]])
@@ -559,7 +599,7 @@ def main():
                         outs.append(nv)
                     elif v[0] == "bytes" and v[2] == nm and idx is not None:
                         j = int(idx)
-                        for x in (0, 0xFF, 0x80, 0x7F, 1, 2, v[1][j] ^ 1, v[1][j] ^ 0x80, rnd.getrandbits(8)):
+                        for x in (0, 0xFF, 0x80, 0x7F, 1, 2, v[1][j] ^ 1, v[1][j] ^ 0x80, rnd.getrandbits(8), 48, 49, 50, 55, 57, 97, 102, 122, 32):
                             if x != v[1][j]:
                                 nb_ = list(v[1])
                                 nb_[j] = x
